@@ -218,6 +218,52 @@ fn scratch_root() -> PathBuf {
 	base
 }
 
+/// Creates the entries of one level in `cur`; returns (has a right-typed marker, has a wrong-typed one).
+fn populate(cur: &Path, level: &[Node]) -> (bool, bool) {
+	let mut wrong = false;
+	let mut has_right = false;
+	for n in level {
+		let (name, as_dir) = match n {
+			Node::Right(k) => {
+				let (m, d) = ORIGIN_MARKERS[*k as usize % ORIGIN_MARKERS.len()];
+				has_right = true;
+				(m, d)
+			}
+			Node::Wrong(k) => {
+				let (m, d) = ORIGIN_MARKERS[*k as usize % ORIGIN_MARKERS.len()];
+				wrong = true;
+				(m, !d)
+			}
+			Node::Decoy(k) => (DECOYS[*k as usize % DECOYS.len()], *k % 3 == 1),
+			Node::Special(_) => continue, // second pass below
+		};
+		let p = cur.join(name);
+		if p.exists() {
+			// `.git` exists as both a file and a dir marker: first creation wins
+			continue;
+		}
+		if as_dir {
+			std::fs::create_dir(&p).unwrap();
+		} else {
+			std::fs::write(&p, b"x").unwrap();
+		}
+	}
+	for n in level {
+		if let Node::Special(k) = n {
+			let (m, _) = ORIGIN_MARKERS[*k as usize % ORIGIN_MARKERS.len()];
+			let p = cur.join(m);
+			if !p.exists() {
+				let cp = std::ffi::CString::new(std::os::unix::ffi::OsStrExt::as_bytes(p.as_os_str())).unwrap();
+				unsafe {
+					libc::mkfifo(cp.as_ptr(), 0o644);
+				}
+				wrong = true;
+			}
+		}
+	}
+	(has_right, wrong)
+}
+
 fn run_chain(c: &ChainCase) -> Outcome {
 	let mut o = Outcome::pass();
 	let tmp = match tempfile::Builder::new().prefix("vh-c20-").tempdir_in(scratch_root()) {
@@ -234,46 +280,8 @@ fn run_chain(c: &ChainCase) -> Outcome {
 	for (i, level) in c.levels.iter().enumerate() {
 		cur = cur.join(format!("l{i}"));
 		std::fs::create_dir(&cur).unwrap();
-		let mut has_right = false;
-		for n in level {
-			let (name, as_dir) = match n {
-				Node::Right(k) => {
-					let (m, d) = ORIGIN_MARKERS[*k as usize % ORIGIN_MARKERS.len()];
-					has_right = true;
-					(m, d)
-				}
-				Node::Wrong(k) => {
-					let (m, d) = ORIGIN_MARKERS[*k as usize % ORIGIN_MARKERS.len()];
-					wrong = true;
-					(m, !d)
-				}
-				Node::Decoy(k) => (DECOYS[*k as usize % DECOYS.len()], *k % 3 == 1),
-				Node::Special(_) => continue, // second pass below
-			};
-			let p = cur.join(name);
-			if p.exists() {
-				// `.git` exists as both a file and a dir marker: first creation wins
-				continue;
-			}
-			if as_dir {
-				std::fs::create_dir(&p).unwrap();
-			} else {
-				std::fs::write(&p, b"x").unwrap();
-			}
-		}
-		for n in level {
-			if let Node::Special(k) = n {
-				let (m, _) = ORIGIN_MARKERS[*k as usize % ORIGIN_MARKERS.len()];
-				let p = cur.join(m);
-				if !p.exists() {
-					let cp = std::ffi::CString::new(std::os::unix::ffi::OsStrExt::as_bytes(p.as_os_str())).unwrap();
-					unsafe {
-						libc::mkfifo(cp.as_ptr(), 0o644);
-					}
-					wrong = true;
-				}
-			}
-		}
+		let (has_right, w) = populate(&cur, level);
+		wrong |= w;
 		if has_right {
 			marked_levels += 1;
 		}
@@ -341,6 +349,115 @@ fn run_chain(c: &ChainCase) -> Outcome {
 			return o;
 		}
 	}
+	o
+}
+
+/// The same chains with the temp directory made the filesystem root of a helper process (chroot): level 0
+/// is `/` itself, so project markers can sit in the root directory (a container image built with `COPY . /`).
+fn run_chain_rooted(c: &ChainCase) -> Outcome {
+	let mut o = Outcome::pass();
+	let tmp = match tempfile::Builder::new().prefix("vh-c20r-").tempdir_in(scratch_root()) {
+		Ok(t) => t,
+		Err(e) => {
+			o.fail("env:tempdir", e.to_string());
+			return o;
+		}
+	};
+	let root = tmp.path().to_path_buf();
+	// (outer path, path as seen from inside)
+	let mut dirs: Vec<(PathBuf, PathBuf)> = Vec::new();
+	let mut cur = root.clone();
+	let mut inner = PathBuf::from("/");
+	let mut marked_levels = 0;
+	let mut wrong = false;
+	let mut root_marked = false;
+	for (i, level) in c.levels.iter().enumerate() {
+		if i > 0 {
+			cur = cur.join(format!("l{i}"));
+			inner = inner.join(format!("l{i}"));
+			std::fs::create_dir(&cur).unwrap();
+		}
+		let (has_right, w) = populate(&cur, level);
+		wrong |= w;
+		if has_right {
+			marked_levels += 1;
+			root_marked |= i == 0;
+		}
+		dirs.push((cur.clone(), inner.clone()));
+	}
+	let (start_outer, start_inner) = dirs[(c.start as usize).min(dirs.len() - 1)].clone();
+	let start_inner = match c.start_kind % 3 {
+		0 => start_inner,
+		1 => {
+			std::fs::write(start_outer.join("zz-start-file.txt"), b"x").unwrap();
+			start_inner.join("zz-start-file.txt")
+		}
+		_ => start_inner.join("zz-does-not-exist"),
+	};
+	if root_marked {
+		o.label("marker-in-the-filesystem-root");
+	}
+	o.nontrivial = root_marked;
+	let out = match std::process::Command::new(super::c18::helper_path()).arg("origins").arg(&root).arg(&start_inner).arg("/").output() {
+		Ok(x) => String::from_utf8_lossy(&x.stdout).into_owned(),
+		Err(e) => {
+			o.fail("env:helper-spawn", e.to_string());
+			return o;
+		}
+	};
+	if out.contains("chroot-failed") {
+		// not permitted here: nothing was explored
+		o.label("chroot-unavailable");
+		o.nontrivial = false;
+		return o;
+	}
+	let unhex = |h: &str| -> PathBuf {
+		let b: Vec<u8> = (0..h.len() / 2).filter_map(|i| u8::from_str_radix(&h[2 * i..2 * i + 2], 16).ok()).collect();
+		PathBuf::from(std::ffi::OsString::from(String::from_utf8_lossy(&b).into_owned()))
+	};
+	// expected per queried path: the inside ancestors-or-self whose outside directory has a right-typed marker
+	let outer_of = |p: &Path| -> PathBuf { root.join(p.strip_prefix("/").unwrap_or(p)) };
+	for line in out.lines() {
+		let f: Vec<&str> = line.split_whitespace().collect();
+		match f.first() {
+			Some(&"origins") if f.len() >= 2 => {
+				let q = unhex(f[1]);
+				let got: BTreeSet<PathBuf> = f[2..].iter().map(|h| unhex(h)).collect();
+				let mut expected = BTreeSet::new();
+				let mut p: Option<&Path> = Some(q.as_path());
+				while let Some(d) = p {
+					if ref_is_origin(&outer_of(d)) {
+						expected.insert(d.to_path_buf());
+					}
+					p = d.parent();
+				}
+				if got != expected {
+					let missing: Vec<_> = expected.difference(&got).collect();
+					let extra: Vec<_> = got.difference(&expected).collect();
+					let listing: Vec<String> = std::fs::read_dir(&root).map(|r| r.flatten().map(|e| e.file_name().to_string_lossy().into_owned()).collect()).unwrap_or_default();
+					o.fail(
+						if !missing.is_empty() { "origin-missed:filesystem-root" } else { "origin-invented:filesystem-root" },
+						format!("inside a root directory listing {listing:?}: origins({q:?}) = {got:?}, missing {missing:?}, unexpected {extra:?}\ncase {c:?}"),
+					);
+					return o;
+				}
+			}
+			Some(&"root-types") => {
+				let mut want: Vec<String> = ref_types(&root).iter().map(|t| format!("{t:?}")).collect();
+				want.sort();
+				let got: Vec<String> = f[1..].iter().map(|s| (*s).to_string()).collect();
+				if got != want {
+					o.fail("types-differ:filesystem-root", format!("types(\"/\") = {got:?}, markers present imply {want:?}\ncase {c:?}"));
+					return o;
+				}
+			}
+			_ => {}
+		}
+	}
+	if !out.lines().any(|l| l.starts_with("origins ")) {
+		o.fail("env:helper-output", format!("no result from the helper: {out:?}"));
+	}
+	let _ = (marked_levels, wrong);
 	o
 }
 
@@ -497,6 +614,14 @@ pub fn check(e: &Engine) {
 		&chain_strategy,
 		&run_chain,
 	);
+	if super::c18::helper_path().exists() {
+		e.explore(
+			"filesystem-root",
+			LegOpts::det(e.tier.pick(300, 6_000), "the same chains built in a temp directory that a helper process makes its filesystem root (chroot): level 0 is `/` itself; origins() of the start path and of `/`, and types(\"/\"), against the reference predicate on the outside listing; non-trivial = a right-typed marker in the root directory (label chroot-unavailable and nothing explored where chroot is not permitted)"),
+			&chain_strategy,
+			&run_chain_rooted,
+		);
+	}
 	e.require_label("chains", "2+marked-levels", 0.15);
 	e.require_label("chains", "wrong-typed-marker", 0.2);
 }
